@@ -591,11 +591,14 @@ class Cluster:
                 r["throttle"] = 0
             return r
         if key == 9:
-            r = {"topics": [{"topic": t["topic"], "partitions": [
-                {"partition": p, "offset": -1, "metadata": "", "error": code} for p in t["partitions"]]}
-                for t in (body["topics"] or [])]}
+            # Kafka (OffsetFetchRequest.getErrorResponse): up to v1 a group-level error is repeated on every
+            # requested partition; from v2 on it is carried only by the top-level field and no partition is listed
             if ver >= 2:
-                r["error"] = code
+                r = {"topics": [], "error": code}
+            else:
+                r = {"topics": [{"topic": t["topic"], "partitions": [
+                    {"partition": p, "offset": -1, "metadata": "", "error": code} for p in t["partitions"]]}
+                    for t in (body["topics"] or [])]}
             if ver >= 3:
                 r["throttle"] = 0
             return r
